@@ -44,6 +44,7 @@ func verifC10NativeMulti(lab string, ord []int) {
 	old, _ := os.Getwd()
 	defer os.Chdir(old)
 	must(os.Chdir("/"))
+	diagnosedNative := false
 	single := make([]string, len(paths))
 	for k, p := range paths {
 		l, err := NewLinter(io.Discard, &LinterOptions{})
@@ -51,6 +52,9 @@ func verifC10NativeMulti(lab string, ord []int) {
 		errs, err := l.LintFile(p, nil)
 		verifCheck(err == nil, "lint-failed")
 		single[k] = verifC10DigestAll(errs)
+		if single[k] != "" {
+			diagnosedNative = true
+		}
 	}
 	// the argument list: the chosen order, 8 times over with copies of the files (a real
 	// scheduler needs some load before goroutines of different files overlap)
@@ -86,6 +90,9 @@ func verifC10NativeMulti(lab string, ord []int) {
 			}
 			verifCheckf(verifC10DigestAll(mine) == single[kind[n]], "file-linted-together-differs-from-file-linted-alone", p)
 		}
+	}
+	if diagnosedNative {
+		verifReach("diagnosed")
 	}
 	verifReach("linted")
 }
@@ -159,7 +166,7 @@ func verifC02NativeJobOrder(src string) {
 	verifReach("compared")
 }
 
-func verifC10NativeFindProject(gs, ws, gr, wr int, want string) {
+func verifC10NativeFindProject(gs, ws, gr, wr, outerFirst int, want string) {
 	tmp, err := os.MkdirTemp("", "verif-c10p-")
 	if err != nil {
 		panic(err)
@@ -196,6 +203,18 @@ func verifC10NativeFindProject(gs, ws, gr, wr int, want string) {
 		got = strings.TrimPrefix(p.RootDir(), tmp)
 	}
 	verifCheckf(got == want, "file-assigned-to-the-wrong-repository", got+" <> "+want)
+	ps := NewProjects()
+	if outerFirst == 1 {
+		_, err := ps.At(filepath.Join(tmp, "r", ".github", "workflows", "o.yml"))
+		verifCheck(err == nil, "find-project-failed")
+	}
+	p, err = ps.At(filepath.Join(tmp, "r", "sub", ".github", "workflows", "w.yml"))
+	verifCheck(err == nil, "find-project-failed")
+	got = ""
+	if p != nil {
+		got = strings.TrimPrefix(p.RootDir(), tmp)
+	}
+	verifCheckf(got == want, "file-of-a-nested-repository-attributed-to-the-enclosing-one", got+" <> "+want)
 }
 
 // verifC02NativeFormat: two real repositories (r ignores the diagnostic of its
@@ -475,6 +494,37 @@ func verifC02NativeNested() {
 	verifReach("compared")
 	verifCheckf(r1 == "", "file-checked-with-another-repository's-configuration", r1)
 	verifCheckf(r1 == r2 && r3 == "", "result-depends-on-how-many-times-the-run-is-repeated", r2+" / "+r3)
+	l4, err := NewLinter(io.Discard, &LinterOptions{})
+	must(err)
+	r4 := digest(l4.LintFiles([]string{paths[1], paths[0]}, nil))
+	verifCheckf(r4 == "", "file-of-a-nested-repository-attributed-to-the-enclosing-one", r4)
+}
+
+// verifC16NativeCalleeBroken: the same project on disk, linted by a real Linter.
+func verifC16NativeCalleeBroken(caller, calleePath, callee string) []*Error {
+	tmp, err := os.MkdirTemp("", "verif-c16c-")
+	if err != nil {
+		panic(err)
+	}
+	defer os.RemoveAll(tmp)
+	tmp, _ = filepath.EvalSymlinks(tmp)
+	must := func(err error) {
+		if err != nil {
+			panic(err)
+		}
+	}
+	must(os.MkdirAll(filepath.Join(tmp, ".git"), 0o755))
+	must(os.MkdirAll(filepath.Join(tmp, ".github", "workflows"), 0o755))
+	must(os.MkdirAll(filepath.Join(tmp, "act"), 0o755))
+	must(os.WriteFile(filepath.Join(tmp, "act", "index.js"), []byte(""), 0o644))
+	must(os.WriteFile(filepath.Join(tmp, filepath.FromSlash(calleePath)), []byte(callee), 0o644))
+	w := filepath.Join(tmp, ".github", "workflows", "w.yml")
+	must(os.WriteFile(w, []byte(caller), 0o644))
+	l, err := NewLinter(io.Discard, &LinterOptions{WorkingDir: tmp})
+	must(err)
+	errs, err := l.LintFile(w, nil)
+	verifCheck(err == nil, "lint-failed")
+	return errs
 }
 
 // verifPrintedWithSource: what the real PrettyPrint writes for one diagnostic with its source (colours off).
